@@ -18,7 +18,7 @@ Definition dispatch (fid : Z) (args : list dyn) : exc dyn :=
           | Ok rs => Ok (DTuple [DList (map res_dyn rs); DList (map ev_dyn (rev (w_trace w)));
                                  match w_sock w with Some s => DInt s | None => DNone end;
                                  DInt (Z.of_nat (length (w_script w))); DInt (Z.of_nat (length (w_choices w)));
-                                 DBytes (w_discarded w);
+                                 DBytes (w_buf w);
                                  DBytes (match w_sock w with Some s => conn_get (w_conns w) s | None => [] end)])
           | Raise e => Raise e end
       | _, _ => Raise TypeError end
